@@ -511,6 +511,31 @@ fn image_doc_case(ctx: &mut Ctx, es: &[Ent]) {
     let shown = image_res_wire(&r);
     let wire: Vec<String> = es.iter().map(ent_wire).collect();
     ctx.out.corr(&format!("c19 image de {}", wire.join(" ")), &shown);
+    // a data text whose length is not a multiple of four is not base64 of anything (RFC 4648; C14_length_error:
+    // reading it to the end never ends cleanly): the visitor must reject the document, not decode a prefix
+    let reached_bad_length = {
+        let mut hit = false;
+        for e in es {
+            match e {
+                Ent::Bad(..) => break,
+                Ent::Channels(n) if ![1, 3, 4].contains(n) => break,
+                Ent::Data(t) if t.len() % 4 != 0 => {
+                    hit = true;
+                    break;
+                }
+                _ => {}
+            }
+        }
+        hit
+    };
+    if reached_bad_length && matches!(r, Ok(Ok(_))) {
+        ctx.out.fail(
+            "Image document whose data text is not base64 (length not a multiple of four) is accepted: data silently truncated",
+            input.clone(),
+            json!("err"),
+            json!(shown.chars().take(200).collect::<String>()),
+        );
+    }
     if let Some((h, w, px)) = image_doc_expect(es) {
         let want = format!("ok {h} {w} {}", hex(&px));
         if shown != want {
